@@ -22,6 +22,8 @@ static std::vector<Cfg> configs(bool T) {
         }
         if (mx * spacing + n > N) continue;              // train must fit the padded length
         v.push_back(Cfg{n, (unsigned)bs.size(), N, spacing, bs});
+        // the wake's strength is stated in cells of the ENERGY axis; the two axes need not have equal cells (main() builds equal extents, the API allows any)
+        v.back().pext = (v.size() % 3 == 0) ? 6.f : (v.size() % 3 == 1) ? 4.f : 9.f;
     }
     return v;
 }
@@ -42,7 +44,7 @@ int main(int argc, char** argv) {
     if (R.warm) { std::set<unsigned> seen; for (auto& c : cfgs) if (seen.insert(c.N).second) { Rig r(c); r.f->wakePotential(); } return 0; }
     double worst = 0;
     for (auto& c : cfgs) {
-        std::string kase = mcx::Desc()("n", c.n)("N", c.N)("buckets", bstr(c.buckets))("spacing", c.spacing).str();
+        std::string kase = mcx::Desc()("n", c.n)("N", c.N)("buckets", bstr(c.buckets))("spacing", c.spacing).f("pext", c.pext).str();
         if (!R.mine(kase)) continue;
         if (R.out_of_time()) { R.not_completed = kase; break; }
         Rig rig(c);
